@@ -130,8 +130,12 @@ MESH2 = {'RefTri': 'MeshTri2', 'RefQuad': 'MeshQuad2', 'RefTet': 'MeshTet2', 'Re
 
 def make_mesh(refdom_name, kind, rng, reorder=True, renum=True, min_quality=0.0):
     """a mesh built through the DEFAULT constructor from randomly renumbered / locally reordered data.
-    kind in {'delaunay','structured','jiggled','curved'}; returns (mesh, description dict)"""
+    kind in {'delaunay','structured','jiggled','curved','adaptive'}; returns (mesh, description dict).
+    'adaptive' (simplices): a LIBRARY-PRODUCED mesh — m.refined(random marked cells) of such a mesh, followed by a random
+    chain of derived meshes (uniform refinement, translated, scaled, with_boundaries)"""
     import skfem
+    if kind == 'adaptive':
+        return _adaptive_mesh(refdom_name, rng, reorder, renum, min_quality)
     base = 'jiggled' if kind == 'curved' else kind
     p, t = base_mesh(refdom_name, base, rng, min_quality=min_quality)
     if renum:
@@ -151,6 +155,57 @@ def make_mesh(refdom_name, kind, rng, reorder=True, renum=True, min_quality=0.0)
                'mesh_class': type(m).__name__}
 
 
+def _adaptive_mesh(refdom_name, rng, reorder, renum, min_quality):
+    import skfem
+    base = ['delaunay', 'structured', 'jiggled'][int(rng.integers(0, 3))]
+    p, t = base_mesh(refdom_name, base, rng, min_quality=min_quality)
+    if renum:
+        p, t = renumber(p, t, rng)
+    if reorder:
+        t = local_reorder(t, refdom_name, rng)
+    with warnings.catch_warnings():
+        warnings.simplefilter('ignore')
+        m0 = getattr(skfem, MESH1[refdom_name])(p, t)
+        nt = m0.t.shape[1]
+        marked = sorted(int(c) for c in rng.choice(nt, size=int(rng.integers(1, max(2, nt // 2 + 1))), replace=False))
+        m = m0.refined(marked)
+        ops = []
+        for _ in range(int(rng.integers(0, 3))):
+            op = ['uniform', 'translated', 'scaled', 'with_boundaries', 'adaptive'][int(rng.integers(0, 5))]
+            if op == 'uniform' and m.t.shape[1] <= (40 if refdom_name == 'RefTri' else 30):
+                m = m.refined()
+            elif op == 'translated':
+                m = m.translated(tuple(float(v) for v in np.round(rng.uniform(-1, 1, m.p.shape[0]), 2)))
+            elif op == 'scaled':
+                m = m.scaled(tuple(float(v) for v in np.round(rng.uniform(0.5, 2, m.p.shape[0]), 2)))
+            elif op == 'with_boundaries':
+                m = m.with_boundaries({'left': lambda x: x[0] < 0.3})
+            elif op == 'adaptive' and m.t.shape[1] <= 60:
+                mk = sorted(int(c) for c in rng.choice(m.t.shape[1], size=int(rng.integers(1, 4)), replace=False))
+                m = m.refined(mk)
+                op = f'adaptive{mk}'
+            else:
+                continue
+            ops.append(op)
+    return m, {'refdom': refdom_name, 'kind': 'adaptive', 'base': base, 'p': np.asarray(p).tolist(), 't': np.asarray(t).tolist(),
+               'marked': marked, 'derived_by': ops, 'mesh_class': type(m).__name__}
+
+
+def check_sorted(mesh, desc, report):
+    """T3 tie of part (b): a triangle mesh the library produces from a MeshTri1 (whose cells are sorted by the
+    constructor) must again have sort_t on and strictly ascending cell columns"""
+    if type(mesh).__name__ != 'MeshTri1':
+        return True
+    ok = bool(getattr(mesh, 'sort_t', False)) and bool(np.all(np.diff(mesh.t, axis=0) > 0))
+    if not ok:
+        bad = np.nonzero(~np.all(np.diff(mesh.t, axis=0) > 0, axis=0))[0]
+        report('mesh=MeshTri1:library-produced-mesh-unsorted',
+               f'MeshTri1 produced by refined({desc.get("marked")}) + {desc.get("derived_by")} has sort_t={getattr(mesh, "sort_t", None)} and '
+               f'{len(bad)} cells whose vertices are not ascending (first: {mesh.t[:, bad[:1]].T.tolist()})',
+               dict(desc, unsorted_cells=bad[:10].tolist()))
+    return ok
+
+
 # ------------------------------------------------------------------------------ claims
 
 def claims():
@@ -159,7 +214,8 @@ def claims():
     'midpoint' / 'morley' / 'plate15' (non-conforming: defining functionals only)"""
     import skfem.element as E
     C = {}
-    allk = ('delaunay', 'structured', 'jiggled', 'curved')
+    allk = ('delaunay', 'structured', 'jiggled', 'curved', 'adaptive')
+    gk = ('delaunay', 'structured', 'jiggled', 'adaptive')
     quadk = ('structured', 'jiggled', 'curved')
 
     def add(label, f, kind, kinds, **opt):
@@ -183,11 +239,11 @@ def claims():
         add(n, getattr(E, n), 'tangential', allk)
     add('ElementQuadN1', E.ElementQuadN1, 'tangential', quadk)
     for n in ('ElementTriHHJ0', 'ElementTriHHJ1'):
-        add(n, getattr(E, n), 'normal-normal', ('delaunay', 'structured', 'jiggled'))
+        add(n, getattr(E, n), 'normal-normal', gk)
     # globally defined elements: affine first-order meshes (their gdof use vertex / midpoint / normal data)
     for n in ('ElementTriHermite', 'ElementTriP1G', 'ElementTriP2G'):
-        add(n, getattr(E, n), 'value', ('delaunay', 'structured', 'jiggled'), tol=GLOBAL_TOL)
-    add('ElementTriArgyris', E.ElementTriArgyris, 'value+grad', ('delaunay', 'structured', 'jiggled'), tol=GLOBAL_TOL)
+        add(n, getattr(E, n), 'value', gk, tol=GLOBAL_TOL)
+    add('ElementTriArgyris', E.ElementTriArgyris, 'value+grad', gk, tol=GLOBAL_TOL)
     add('ElementQuad2G', E.ElementQuad2G, 'value', ('structured',), tol=GLOBAL_TOL)
     add('ElementQuadBFS', E.ElementQuadBFS, 'value+grad', ('structured',), no_reorder=True, tol=GLOBAL_TOL)
     add('ElementHexC1', E.ElementHexC1, 'value+grad', ('structured',), no_reorder=True, tol=GLOBAL_TOL, heavy=True)
@@ -199,7 +255,7 @@ def claims():
     add('ElementTri15ParamPlate', E.ElementTri15ParamPlate, 'plate15', ('delaunay', 'structured', 'jiggled'), tol=GLOBAL_TOL)
     # wrappers
     add('ElementVector(ElementTriP2)', lambda: E.ElementVector(E.ElementTriP2()), 'value', allk)
-    add('ElementVector(ElementTetP2)', lambda: E.ElementVector(E.ElementTetP2()), 'value', ('delaunay', 'curved'))
+    add('ElementVector(ElementTetP2)', lambda: E.ElementVector(E.ElementTetP2()), 'value', ('delaunay', 'curved', 'adaptive'))
     add('ElementVector(ElementQuad2)', lambda: E.ElementVector(E.ElementQuad2()), 'value', quadk)
     add('ElementComposite(TriP3,TriP1)', lambda: E.ElementComposite(E.ElementTriP3(), E.ElementTriP1()), 'value', allk)
     add('ElementComposite(TriRT2,TriP1)', lambda: E.ElementComposite(E.ElementTriRT2(), E.ElementTriP1()), 'normal|value', allk)
